@@ -34,6 +34,10 @@ def run(req_path, tier, seed):
                 cases.append(files)
     step = max(1, len(cases) // want)
     picked = cases[(seed % step)::step][:want]
+    # CLI only: deeply nested expressions and types (the parser recurses; the main thread's stack takes a few hundred levels)
+    for depth in (60, 150, 300):
+        picked.append([{"path": "deep_expr.rs", "text": "#[tauri::command]\npub fn deep() -> i32 {\n    %s1%s\n}\n" % ("(" * depth, ")" * depth)},
+                       {"path": "deep_type.rs", "text": "#[tauri::command]\npub fn deep_ty(x: %su8%s) {}\n" % ("Vec<" * min(depth, 120), ">" * min(depth, 120))}])
     fails, n = [], 0
     hist = {}
     for idx, files in enumerate(picked):
